@@ -21,7 +21,8 @@ Units == {"ns", "us", "µs", "ms", "s", "m", "h"}
 \* shape "n/du"   : N/<duration> -> N per that duration, for durations written as Go writes and reads them: a decimal
 \*                  fraction of a unit (with or without the leading zero) or several units in a row; the case names the
 \*                  duration both as text and as M of a smaller unit
-RateShapes == {"n", "n/u", "n/mu", "n/du", "inf"}
+\* shape "0n/mu"  : the frequency written with leading zeros (decimal all the same)
+RateShapes == {"n", "n/u", "n/mu", "n/du", "0n/mu", "inf"}
 Durations == {[dur |-> "0.5s", m |-> 500, unit |-> "ms"], [dur |-> ".5s", m |-> 500, unit |-> "ms"], [dur |-> "1.5s", m |-> 1500, unit |-> "ms"],
               [dur |-> "1m30s", m |-> 90, unit |-> "s"], [dur |-> ".25m", m |-> 15, unit |-> "s"], [dur |-> "1.5ms", m |-> 1500, unit |-> "us"],
               [dur |-> "1h0m0.5s", m |-> 3600500, unit |-> "ms"], [dur |-> "0.001ms", m |-> 1, unit |-> "us"], [dur |-> "2.5h", m |-> 150, unit |-> "m"],
@@ -36,6 +37,7 @@ RateCases ==
     \cup {[shape |-> "n/u", n |-> n, m |-> 1, unit |-> u] : n \in Ns, u \in Units}
     \cup {[shape |-> "n/mu", n |-> n, m |-> m, unit |-> u] : n \in Ns, m \in Ms, u \in Units}
     \cup {[shape |-> "n/du", n |-> n, m |-> d.m, unit |-> d.unit, dur |-> d.dur] : n \in {1, 7, 1000}, d \in Durations}
+    \cup {[shape |-> "0n/mu", n |-> n, m |-> m, unit |-> u] : n \in {7, 50, 1000}, m \in {1, 3}, u \in {"s", "m"}}
     \cup {[shape |-> "inf", n |-> 0, m |-> 1, unit |-> "s"]}
     \cup {[shape |-> sh, n |-> 5, m |-> 2, unit |-> "s"] : sh \in BadShapes}
 
